@@ -240,3 +240,59 @@ def return_var(src: str) -> str:
 
 GENERATED["gen:hoist-if-test-all"] = (hoist_if_test, "the test of every plain `if` hoisted into a fresh local in front of it")
 GENERATED["gen:return-var-all"] = (return_var, "every `return <expr>` written as `_r = <expr>; return _r`")
+
+
+def walrus(src: str) -> str:
+    """`t = E` immediately followed by `if t ...` / `if not t` / `if t <op> X` (t the first thing the test evaluates) -> `if (t := E) ...`,
+    inside functions, for simple names and expressions without await."""
+    tree = ast.parse(src)
+    for fn in [n for n in ast.walk(tree) if isinstance(n, (ast.FunctionDef, ast.AsyncFunctionDef))]:
+        for parent in ast.walk(fn):
+            for field in ("body", "orelse", "finalbody"):
+                blk = getattr(parent, field, None)
+                if not isinstance(blk, list):
+                    continue
+                out = []
+                i = 0
+                while i < len(blk):
+                    a = blk[i]
+                    b = blk[i + 1] if i + 1 < len(blk) else None
+                    done = False
+                    if isinstance(a, ast.Assign) and len(a.targets) == 1 and isinstance(a.targets[0], ast.Name) and isinstance(b, ast.If) \
+                            and not any(isinstance(x, (ast.Await, ast.Yield, ast.YieldFrom, ast.NamedExpr)) for x in ast.walk(a.value)) and not isinstance(a.value, (ast.Constant, ast.Name)):
+                        t = a.targets[0].id
+                        e = b.test
+                        holder, attr = None, None
+                        cur, par, fld = e, None, None
+                        while True:
+                            if isinstance(cur, ast.Name) and cur.id == t:
+                                holder, attr = par, fld
+                                break
+                            if isinstance(cur, ast.Compare):
+                                par, fld, cur = cur, ("left", None), cur.left
+                            elif isinstance(cur, ast.UnaryOp) and isinstance(cur.op, ast.Not):
+                                par, fld, cur = cur, ("operand", None), cur.operand
+                            elif isinstance(cur, ast.BoolOp):
+                                par, fld, cur = cur, ("values", 0), cur.values[0]
+                            else:
+                                cur = None
+                                break
+                        if cur is not None:
+                            w = ast.NamedExpr(target=ast.Name(id=t, ctx=ast.Store()), value=a.value)
+                            if holder is None:
+                                b.test = w
+                            elif attr[1] is None:
+                                setattr(holder, attr[0], w)
+                            else:
+                                getattr(holder, attr[0])[attr[1]] = w
+                            out.append(b)
+                            i += 2
+                            done = True
+                    if not done:
+                        out.append(a)
+                        i += 1
+                setattr(parent, field, out)
+    return ast.unparse(ast.fix_missing_locations(tree)) + "\n"
+
+
+GENERATED["gen:walrus-all"] = (walrus, "every `t = E` directly followed by an `if` that tests `t` first written as `if (t := E) ...`")
